@@ -1,5 +1,6 @@
 """C18 - relocating, renaming or reformatting a program changes output only as it must."""
 import copy
+import os
 
 from hypothesis import strategies as st
 
@@ -33,7 +34,9 @@ _RESERVED = set(R.MNEMONICS) | {"A", "B", "D", "X", "Y", "U", "S", "CC", "DP", "
 _L1 = "ABCDEFGHIJKLMNOPQRSTUVWXYZabcdefghijklmnopqrstuvwxyz"
 _LN = _L1 + "0123456789"
 _fresh_name = st.builds(lambda a, rest: a + rest, st.sampled_from(_L1), st.text(alphabet=_LN, min_size=0, max_size=9))
-_COMMENTS = [None, "", "c", "set A", "x ; y", "LDA #1", "\"quoted\"", "'q", "a,b+[1]", "   spaced   ", "#$%&*()", "read/write \"x\" /y/"]
+_COMMENTS = [None, "", "c", "set A", "x ; y", "LDA #1", "\"quoted\"", "'q", "a,b+[1]", "   spaced   ", "#$%&*()", "read/write \"x\" /y/",
+             # characters that str.splitlines takes for line ends, followed by something that reads like a statement
+             "was:\x0c CLRA ", "v\x0b2", "a\x1c b", "\x1d", "r\x1e LDA #1", "n\x85 NOP ", "u\u2028 RTS ", "p\u2029"]
 _layout = st.fixed_dictionaries(dict(
     ws1=st.sampled_from([" ", "  ", "\t", " \t ", "        "]), ws2=st.sampled_from([" ", "  ", "\t", "\t\t", "   "]),
     ws3=st.sampled_from([" ", "", "\t", "   "]), cmt=st.one_of(st.sampled_from(_COMMENTS), st.text(alphabet=" !#$%&'()*+,-./0123456789:;<=>?@ABCXYZ[]^_abcxyz{|}~", max_size=20)),
@@ -44,7 +47,8 @@ _T = st.one_of(
     st.fixed_dictionaries(dict(kind=st.just("rename"), names=st.lists(_fresh_name, min_size=40, max_size=40, unique_by=lambda s: s.upper()))),
     st.fixed_dictionaries(dict(kind=st.just("layout"), layouts=st.lists(_layout, min_size=1, max_size=12))),
     st.fixed_dictionaries(dict(kind=st.just("suffix"), extra=proggen.small_program)))
-_case = st.fixed_dictionaries(dict(prog=st.one_of(proggen.rich_program, proggen.rich_program, proggen.program), T=_T))
+_case = st.fixed_dictionaries(dict(prog=st.one_of(proggen.rich_program, proggen.rich_program, proggen.program), T=_T,
+                                   cli=st.integers(0, 5)))
 
 
 def enumerated(tier, seed):
@@ -212,6 +216,22 @@ def execute(case):
         return ok(labels=labels + ["both_rejected"], nontrivial=False)
     symA, symB = dict(A.symbols), dict(B.symbols)
     ctx = " P={!r} T(P)={!r}".format([l.strip() for l in a_lines][:16], [l.strip() for l in b_lines][:16])
+    if kind == "layout" and case.get("cli") == 0:
+        # the same pair as source files through real assembler.py processes: reading the file must not cut lines elsewhere
+        labels.append("layout_cli")
+        with driver.TempDir() as tmp:
+            for name, text in (("p.asm", a_lines), ("t.asm", b_lines)):
+                with open(os.path.join(tmp, name), "w", newline="") as fh:
+                    fh.write("".join(text))
+            ra = driver.run_cli("assembler.py", ["p.asm", "--to_bin", "p.bin"], cwd=tmp)
+            rb = driver.run_cli("assembler.py", ["t.asm", "--to_bin", "t.bin"], cwd=tmp)
+            pa, pb = os.path.join(tmp, "p.bin"), os.path.join(tmp, "t.bin")
+            ba = open(pa, "rb").read() if os.path.exists(pa) else None
+            bb = open(pb, "rb").read() if os.path.exists(pb) else None
+        if ra.status != rb.status or ba != bb:
+            return viol("layout (source files through assembler.py): exit {} / {} bytes for P, exit {} / {} bytes for T(P): {!r}.".format(
+                ra.status, None if ba is None else len(ba), rb.status, None if bb is None else len(bb), rb.stdout[-160:]) + ctx,
+                fid="C18:layout:cli", labels=labels)
     if kind in ("rename", "layout"):
         if A.image != B.image:
             i = next((i for i, (x, y) in enumerate(zip(A.image, B.image)) if x != y), min(len(A.image), len(B.image)))
